@@ -13,7 +13,8 @@ static void kill(conn &&c){ conn const dead{std::move(c)}; }   // the connection
 #define THREE conn c1{s.connect(sig::function{[](int a){ vf_cb(1, a); }})}; conn c2{s.connect(sig::function{[](int a){ vf_cb(2, a); }})}; conn c3{s.connect(sig::function{[](int a){ vf_cb(3, a); }})}
 extern "C" {
 using usig = fcppt::signal::object<void(int), fcppt::signal::unregister::base>;
-void vf_sig_unregister(int x, unsigned drop){ usig s;
-  conn c1{s.connect(usig::function{[](int a){ vf_cb(1, a); }}, fcppt::signal::unregister::function{[]{ vf_unreg(1); }})}; conn c2{s.connect(usig::function{[](int a){ vf_cb(2, a); }}, fcppt::signal::unregister::function{[]{ vf_unreg(2); }})};
-  if (drop & 1U) kill(std::move(c1)); if (drop & 2U) kill(std::move(c2)); vf_unreg(0); s(x); vf_unreg(0); }
+// one connection whose unregister function looks at its own signal: at that moment the dying connection is no member any more
+void vf_sig_unreg1(int x){ usig s;
+  { conn c{s.connect(usig::function{[](int a){ vf_cb(1, a); }}, fcppt::signal::unregister::function{[&s]{ vf_unreg(s.empty() ? 1 : 2); }})}; s(x); }
+  s(x + 1); }
 }
